@@ -263,11 +263,11 @@ class ExecBase:
             return z3.Or(z == NONE, self.type_formula(st, z, th.args[0] if th.args else None, depth))
         if k == "list":
             r = V.r(z)
-            return z3.And(V.is_R(z), r >= 0, r < st.alloc_bound(), clsof(r) == CLS_LIST, st.hread("$llen", r) >= 0)
+            return z3.And([V.is_R(z), r >= 0, r < st.alloc_bound(), clsof(r) == CLS_LIST, st.hread("$llen", r) >= 0] + self.elem_tag(r, th))
         if k in ("dict", "set"):
             r = V.r(z)
-            return z3.And(V.is_R(z), r >= 0, r < st.alloc_bound(), clsof(r) == (CLS_DICT if k == "dict" else CLS_SET),
-                          st.hread("$dlen", r) >= 0)
+            return z3.And([V.is_R(z), r >= 0, r < st.alloc_bound(), clsof(r) == (CLS_DICT if k == "dict" else CLS_SET),
+                           st.hread("$dlen", r) >= 0] + self.elem_tag(r, th))
         if k == "tuple":
             if th.args and not (len(th.args) == 2 and th.args[1].name == "Ellipsis") and depth < 3:
                 t = V.t(z)
@@ -282,6 +282,19 @@ class ExecBase:
             r = V.r(z)
             return z3.And(V.is_R(z), r >= 0, r < st.alloc_bound())
         return z3.BoolVal(True)
+
+    def elem_tag(self, r, th: TH):
+        """Typed separation: containers whose declared element types differ are different objects (list/dict/set are
+        invariant in their element type under the repository's strict mypy configuration)."""
+        if not th.args or any(self._has_any(a) for a in th.args):
+            return []
+        etag = z3.Function("etag", z3.IntSort(), z3.IntSort())
+        return [etag(r) == INTERN.class_id("elem:" + ",".join(repr(a) for a in th.args))]
+
+    def _has_any(self, th: TH) -> bool:
+        if th.name in ("Any", "object", "Union", "Callable", "TypeVar"):
+            return True
+        return any(self._has_any(a) for a in th.args)
 
     def is_enum(self, st: State, name: str) -> bool:
         cache = self.enum_classes()
